@@ -613,7 +613,8 @@ def _pred_kind(clo):
 def r20c(P, R):
     normalize, _, resolve = _path_fns(P)
     resolve_mir_path = resolve.path
-    resolve = inlined(P, resolve, pred=lambda g: g.path != normalize.path)
+    norms = _normalisers(P) | {normalize.path}
+    resolve = inlined(P, resolve, pred=lambda g: g.path not in norms)
     pv, names = _params(resolve)
     if len(names) != 2 or None in names:
         R.undecided("R20-c", "params", "parameters destructured", loc=resolve.loc())
@@ -629,8 +630,8 @@ def r20c(P, R):
         rets.append(tail)
     R.floor("R20-c", "return expressions of resolve_relative_path", len(rets), 1)
     for j, e in enumerate(rets):
-        a = pv.atoms(e)
-        R.check("R20-c", "normalised-result#%d" % j, has_call(a, nname),
+        a = pv.deep_atoms(e)
+        R.check("R20-c", "normalised-result#%d" % j, has_call(a, nname) or _normalised(P, a),
                 "the resolved path is normalised", "resolve_relative_path returns a path that did not pass through %s: `dir/../x` and `x` are "
                 "different keys for the import resolver's visited set and for file look-up" % nname, loc=loc)
     # the file name of from_file is dropped before the relative path is appended
